@@ -22,6 +22,8 @@ type Case struct {
 	Old      interface{} `json:"old"`
 	New      interface{} `json:"new"`
 	IntTyped bool        `json:"int_typed"`
+	NumType  string      `json:"num_type,omitempty"` // Go type of every number when int_typed (default int64)
+	Exotic   bool        `json:"exotic,omitempty"`   // oracle only: fractional floats and []byte leaves (outside the model)
 	Shared   bool        `json:"shared"` // old and new share unchanged sub-values by pointer
 	Origin   string      `json:"origin"`
 }
@@ -236,23 +238,123 @@ func deepCopy(v interface{}) interface{} {
 	return v
 }
 
-// toInts turns float64 numbers into int64, as executor output has them.
-func toInts(v interface{}) interface{} {
+// numTypes lists the Go numeric types executor output can carry; a case uses one of them throughout.
+var numTypes = []string{"int64", "int", "int32", "int16", "int8", "uint", "uint8", "uint16", "uint32", "uint64", "float32", "float64"}
+
+func fits(t string, x float64) bool {
+	switch t {
+	case "int8":
+		return x >= -128 && x <= 127
+	case "int16":
+		return x >= -32768 && x <= 32767
+	case "int32":
+		return x >= -(1<<31) && x < (1<<31)
+	case "uint8":
+		return x >= 0 && x <= 255
+	case "uint16":
+		return x >= 0 && x <= 65535
+	case "uint32":
+		return x >= 0 && x < (1<<32)
+	case "uint", "uint64":
+		return x >= 0
+	case "float32":
+		return x >= -(1<<24) && x <= (1<<24)
+	}
+	return true
+}
+
+func allFit(t string, v interface{}) bool {
+	switch x := v.(type) {
+	case map[string]interface{}:
+		for _, e := range x {
+			if !allFit(t, e) {
+				return false
+			}
+		}
+	case []interface{}:
+		for _, e := range x {
+			if !allFit(t, e) {
+				return false
+			}
+		}
+	case float64:
+		return fits(t, x)
+	}
+	return true
+}
+
+func conv(t string, x float64) interface{} {
+	switch t {
+	case "int":
+		return int(x)
+	case "int8":
+		return int8(x)
+	case "int16":
+		return int16(x)
+	case "int32":
+		return int32(x)
+	case "uint":
+		return uint(x)
+	case "uint8":
+		return uint8(x)
+	case "uint16":
+		return uint16(x)
+	case "uint32":
+		return uint32(x)
+	case "uint64":
+		return uint64(x)
+	case "float32":
+		return float32(x)
+	case "float64":
+		return x
+	}
+	return int64(x)
+}
+
+// toNums turns float64 numbers into Go type t, as executor output has them.
+func toNums(t string, v interface{}) interface{} {
 	switch x := v.(type) {
 	case map[string]interface{}:
 		m := map[string]interface{}{}
 		for k, e := range x {
-			m[k] = toInts(e)
+			m[k] = toNums(t, e)
 		}
 		return m
 	case []interface{}:
 		a := make([]interface{}, len(x))
 		for i, e := range x {
-			a[i] = toInts(e)
+			a[i] = toNums(t, e)
 		}
 		return a
 	case float64:
-		return int64(x)
+		return conv(t, x)
+	}
+	return v
+}
+
+// exotic rewrites leaves into values outside the model: x+0.5 for numbers (not under __key), []byte for strings.
+func exotic(v interface{}, underKey bool) interface{} {
+	switch x := v.(type) {
+	case map[string]interface{}:
+		m := map[string]interface{}{}
+		for k, e := range x {
+			m[k] = exotic(e, k == "__key")
+		}
+		return m
+	case []interface{}:
+		a := make([]interface{}, len(x))
+		for i, e := range x {
+			a[i] = exotic(e, false)
+		}
+		return a
+	case float64:
+		if !underKey && int64(x)%2 == 0 && x < 1e6 && x > -1e6 {
+			return x + 0.5
+		}
+	case string:
+		if !underKey && len(x)%2 == 1 {
+			return []byte(x)
+		}
 	}
 	return v
 }
@@ -307,6 +409,7 @@ type obs struct {
 	stripNew interface{}
 	jsOut    interface{}
 	jsErr    string
+	exotic   bool
 }
 
 func safeDiff(a, b interface{}) (d interface{}, p string) {
@@ -368,7 +471,15 @@ func main() {
 				c.New = deepCopy(c.New)
 				c.Shared = false
 			}
-			c.IntTyped = cr.Chance(30)
+			c.IntTyped = cr.Chance(35)
+			if c.IntTyped {
+				c.NumType = numTypes[cr.Intn(len(numTypes))]
+				if !allFit(c.NumType, c.Old) || !allFit(c.NumType, c.New) {
+					c.NumType = "int64"
+				}
+			} else if cr.Chance(8) {
+				c.Exotic = true
+			}
 			cases = append(cases, c)
 		}
 	}
@@ -382,15 +493,22 @@ func main() {
 		all = append(all, ob)
 		old, nw := c.Old, c.New
 		if c.IntTyped {
+			nt := c.NumType
+			if nt == "" {
+				nt = "int64"
+			}
 			// conversion keeps sharing only when old and new are the same object
 			if c.Shared && reflect.DeepEqual(old, nw) && c.Origin == "identical" {
-				old = toInts(old)
+				old = toNums(nt, old)
 				nw = old
 			} else {
-				old, nw = toInts(old), toInts(nw)
+				old, nw = toNums(nt, old), toNums(nt, nw)
 			}
-		} else if !c.Shared {
-			// replayed/corpus cases arrive unshared already
+			run.Hist("numtype:" + nt)
+		} else if c.Exotic {
+			old, nw = exotic(old, false), exotic(nw, false)
+			ob.exotic = true
+			run.Hist("exotic")
 		}
 		oldCopy, newCopy := deepCopy(old), deepCopy(nw)
 		d, p := safeDiff(old, nw)
@@ -497,8 +615,8 @@ func main() {
 		start = end
 	}
 	for idx, ob := range all {
-		if ob.hasDelta && (ob.delta == nil || ob.jsErr != "") {
-			continue // failures already reported; nothing comparable
+		if ob.exotic || (ob.hasDelta && (ob.delta == nil || ob.jsErr != "")) {
+			continue // outside the model, or failures already reported; nothing comparable
 		}
 		oldT, _ := roundTrip(ob.c.Old)
 		newT, _ := roundTrip(ob.c.New)
